@@ -29,9 +29,9 @@ def programs(tier_: str) -> list[dict]:
     total = 480 if tier_ == "quick" else 14400
     pins = defs.pinned_definitions()
     cand = [d for name, d in sorted(pins.items()) if name not in defs.ALWAYS]
-    out = []
+    out = _handcrafted()
     k = 0
-    used_api: set[str] = set()
+    used_api: set[str] = {interpret.api_name(d) for d in out}
     while len(out) < total:
         rng = common.rng_for("C16", "program", k)
         k += 1
@@ -45,6 +45,32 @@ def programs(tier_: str) -> list[dict]:
         else:
             out += defgen.random_definition(rng, used_api)
     return out[:total]
+
+
+def _handcrafted() -> list[dict]:
+    """Definitions that make a point the random grammar only makes by luck."""
+    import builtins
+    import keyword
+
+    out = []
+    # one field for every lower-case builtin name: the attribute gets a trailing underscore for each of them (PEP 8), not only for the
+    # dozen that the word list of the random grammar can spell
+    names = [n for n in sorted(dir(builtins)) if n.islower() and n.isidentifier() and not n.startswith("_") and not keyword.iskeyword(n) and len(n) >= 2]
+    chunks = [names[i:i + 40] for i in range(0, len(names), 40)]
+    for k, chunk in enumerate(chunks):
+        out.append({"type": "data", "name": f"BuiltinNames{k}Data", "validVersions": "0-1", "flexibleVersions": "1+",
+                    "fields": [{"name": n.capitalize(), "type": "int32", "versions": "0+"} for n in chunk],
+                    "_constructs": ["handcrafted:builtin-names"], "_origin": "hand-crafted: fields named after builtins"})
+    # tagged fields whose type is a common struct: single (every member defaulted, so the field's own default is derivable) and array
+    out.append({"apiKey": 9001, "type": "request", "name": "TaggedCommonRequest", "validVersions": "0-1", "flexibleVersions": "0+",
+                "fields": [{"name": "Plain", "type": "int16", "versions": "0+"},
+                           {"name": "State", "type": "Cfg", "versions": "0+", "taggedVersions": "0+", "tag": 0},
+                           {"name": "States", "type": "[]Cfg", "versions": "1+", "taggedVersions": "1+", "tag": 1},
+                           {"name": "Inline", "type": "Cfg", "versions": "0+"}],
+                "commonStructs": [{"name": "Cfg", "versions": "0+", "fields": [{"name": "Level", "type": "int32", "versions": "0+", "default": "5"},
+                                                                               {"name": "Label", "type": "string", "versions": "0+", "default": "x"}]}],
+                "_constructs": ["handcrafted:tagged-common-struct"], "_origin": "hand-crafted: tagged common-struct fields"})
+    return out
 
 
 def in_subset(d: dict) -> str | None:
